@@ -124,21 +124,22 @@ impl<T: Iterator<Item = Token>> TryFrom<&mut Peekable<T>>
                 (None, None) | (Some(LitOrRef::Lit(0)), None) | (None, Some(LitOrRef::Lit(MAX)))
             );
 
-            if any {
-                iter.next_separator_eq_or_err(')')?;
+            let extensible = if iter.next_separator_eq_or_err(',').is_ok() {
+                iter.next_separator_eq_or_err('.')?;
+                iter.next_separator_eq_or_err('.')?;
+                iter.next_separator_eq_or_err('.')?;
+                true
+            } else {
+                false
+            };
+            iter.next_separator_eq_or_err(')')?;
+
+            // an extensible constraint stays a constraint, even if its root permits every size
+            if any && !extensible {
                 Ok(Size::Any)
             } else {
                 let start = start.unwrap_or_default();
                 let end = end.unwrap_or(LitOrRef::Lit(i64::MAX as usize));
-                let extensible = if iter.next_separator_eq_or_err(',').is_ok() {
-                    iter.next_separator_eq_or_err('.')?;
-                    iter.next_separator_eq_or_err('.')?;
-                    iter.next_separator_eq_or_err('.')?;
-                    true
-                } else {
-                    false
-                };
-                iter.next_separator_eq_or_err(')')?;
                 if start == end {
                     Ok(Size::Fix(start, extensible))
                 } else {
